@@ -221,17 +221,23 @@ Definition apply_one (l : list cmode) (m : cmode) : list cmode :=
 Definition apply_modes (c : cmodes) (ms : list cmode) : cmodes :=
   cm_set_modes c (fold_left apply_one ms (cm_modes c)).
 
+(* has_mode / mode_get take the mode as the byte stored, i.e. HasMode(string(rune(name))) /
+   Get(string(rune(name))); the string-keyed API is has_mode_str / mode_get_str at the end. *)
 Definition has_mode (c : cmodes) (name : N) : bool := existsb (fun m => m_name m =? name) (cm_modes c).
 Fixpoint mode_get (l : list cmode) (name : N) : option str :=
   match l with
   | [] => None
   | m :: r => if m_name m =? name then (match m_args m with [] => None | a => Some a end) else mode_get r name
   end.
+(* Go's string(b) for a byte b is the UTF-8 encoding of the code point b (not the byte):
+   two bytes for b >= 0x80.  CModes.String, HasMode and Get all go through it. *)
+Definition byte_as_rune (b : N) : str :=
+  if b <? 128 then [b] else [192 + b / 64; 128 + b mod 64].
 (* CModes.String(): "+" names, then " " arg for every non-empty arg *)
 Definition modes_string (c : cmodes) : str :=
   match cm_modes c with
   | [] => []
-  | l => 43 :: List.map m_name l ++ flat_map (fun m => match m_args m with [] => [] | a => 32 :: a end) l
+  | l => 43 :: flat_map (fun m => byte_as_rune (m_name m)) l ++ flat_map (fun m => match m_args m with [] => [] | a => 32 :: a end) l
   end.
 
 (* Perms *)
@@ -402,18 +408,28 @@ Definition handle_connect (s : state) (e : event) : state :=
   | [] => s
   end.
 
+Definition str_nonempty (x : str) : bool := match x with [] => false | _ => true end.
+
 Definition handle_join (cfg : config) (s : state) (e : event) : res (state * list out) :=
   match e_src e, e_params e with
   | Some src, chan_name :: rest =>
       let s1 := create_channel s chan_name in
+      (* a user already tracked (e.g. from NAMES) takes ident and host from the JOIN prefix
+         when either is non-empty; a new one is created from the prefix *)
+      let existed := match lookup_user s1 (s_name src) with Some _ => true | None => false end in
       let s2 := create_user s1 src in
       match lookup_channel s2 chan_name, lookup_user s2 (s_name src) with
-      | Some c, Some u =>
+      | Some c, Some u_found =>
+          let u := if existed && (str_nonempty (s_ident src) || str_nonempty (s_host src))
+                   then u_set_ident_host u_found (s_ident src) (s_host src) else u_found in
           let c' := channel_add_user c (u_nick u) in
-          let u1 := user_add_channel u (c_name c) in
+          let u0 := user_add_channel u (c_name c) in
+          (* account-tag: handleTags ran before the user existed *)
+          let u1 := match e_account_tag e with Some a => u_set_account u0 a | None => u0 end in
           let u2 := match rest with
                     | acct :: rest2 =>
-                        let ua := if streqb acct [42] then u1 else u_set_account u1 acct in
+                        (* extended-join: "*" means not logged in *)
+                        let ua := if streqb acct [42] then u_set_account u1 [] else u_set_account u1 acct in
                         match rest2 with name :: _ => u_set_name ua name | [] => ua end
                     | [] => u1
                     end in
@@ -527,7 +543,7 @@ Fixpoint isupport_tokens (opts : amap str) (toks : list str) : amap str :=
   | t :: r =>
       let opts' :=
         match index_byte 61 t with
-        | Some j => if Nat.ltb j 1 || Nat.eqb (j + 1) (length t) then aset t [] opts
+        | Some j => if Nat.ltb j 1 then aset t [] opts
                     else aset (firstn j t) (skipn (j + 1) t) opts
         | None => aset t [] opts
         end in
@@ -675,4 +691,15 @@ Fixpoint run (cfg : config) (s : state) (h : list event) : res (state * list out
           | Ok (s'', o') => Ok (s'', o ++ o')
           end
       end
+  end.
+
+(* ---------- CModes.HasMode(mode string) / Get(mode string), as written ---------- *)
+(* `string(c.modes[i].name) == mode`: a stored byte >= 0x80 is found under its two-byte
+   UTF-8 form only. *)
+Definition has_mode_str (c : cmodes) (mode : str) : bool :=
+  existsb (fun m => streqb (byte_as_rune (m_name m)) mode) (cm_modes c).
+Fixpoint mode_get_str (l : list cmode) (mode : str) : option str :=
+  match l with
+  | [] => None
+  | m :: r => if streqb (byte_as_rune (m_name m)) mode then (match m_args m with [] => None | a => Some a end) else mode_get_str r mode
   end.
